@@ -3,6 +3,7 @@ import FedjaxVerif.Model.Shakespeare
 import FedjaxVerif.Model.Emnist
 import FedjaxVerif.Model.Cifar
 import FedjaxVerif.Model.Labels
+import FedjaxVerif.Model.Stackoverflow
 
 namespace FedjaxVerif.Handlers.C20
 open FedjaxVerif
@@ -60,6 +61,9 @@ def parseDataset (v : Val) : Option Labels.DatasetIds :=
     some ⟨pad, bos, eos, oov, vocab⟩
   | _ => none
 
+/-- a sentence: look-up results, `none` = out of vocabulary -/
+def parseSentence (v : Val) : Option (List (Option Nat)) := Val.mapM? Val.toOptNat? v
+
 def validCrop (h w : Nat) : Bool := 1 ≤ h && 1 ≤ w && h ≤ 32 && w ≤ 32
 
 def handle (op : String) (args : List Val) : Option Val :=
@@ -85,6 +89,12 @@ def handle (op : String) (args : List Val) : Option Val :=
     let c := Cifar.cropTff 32 32 h w draw img
     let flat : List Float := (c.flatten.flatten).map Float.ofNat
     some (.list ((standardiseF flat).map floatToVal))
+  | "c20.so", [nv, l, sents] => do
+    let nv ← nv.toNat?; let l ← l.toNat?; let sents ← Val.mapM? parseSentence sents
+    if sents.any (fun s => s.any (fun w => match w with | some i => nv ≤ i | none => false)) then
+      some (.sym "bad-index") else
+    let r := Stackoverflow.tokenizeBatch nv l sents
+    some (.list [.list (r.1.map Val.ofNats), .list (r.2.map Val.ofNats)])
   | "c20.labels", [d, width, ms] => do
     let d ← parseDataset d; let width ← width.toNat?; let ms ← Val.mapM? parseMetric ms
     some (.list [Val.ofBool (Labels.labelsAgree d ⟨width, ms⟩),
